@@ -63,7 +63,7 @@ def run(ctx):
         return
     ctx.check(len(T.shard_fns) == 1, "R10.1", "one-shard-function", "the expiry -> shard mapping has exactly one definition", detail=str(sorted(T.shard_fns)))
     ops = [o for o in T.ops if o["kind"] in ("insert", "remove", "get", "retain")]
-    ctx.floor("R10.1", "expiry-index map operations", len(ops), 6)
+    ctx.floor("R10.1", "expiry-index map operations", len(ops), 4)
     for o in ops:
         f = o["fn"]
         ctx.touch(f)
